@@ -114,7 +114,11 @@ pub fn run(a: &Args) {
     let nwork = a.num("workloads", 10) as usize;
     let full_pairs = a.num("fullpairs", 1) as usize;
     let mut r = Rng::new(seed.wrapping_mul(9001));
-    let hists = ["aD", "aFD", "abD", "aFbD", "abFD", "aFbFD", "FaD", "aFbbD", "abFaFD", "aaFbD", "FaFbD", "abaD"];
+    // the last two cross a multiple of 256 words between two finalizes: the big-endian length field
+    // of the header then changes in more than its last byte when it is rewritten
+    let long1 = format!("aF{}FD", "b".repeat(30));
+    let long2 = format!("{}F{}FD", "a".repeat(12), "a".repeat(40));
+    let hists = ["aD", "aFD", "abD", "aFbD", "abFD", "aFbFD", "FaD", "aFbbD", "abFaFD", "aaFbD", "FaFbD", "abaD", &long1[..], &long2[..]];
     let mut traces: Vec<Trace> = vec![];
     let mut concs: Vec<Conc> = vec![];
     for ch in 0..chunks {
@@ -131,7 +135,9 @@ pub fn run(a: &Args) {
         let i = wi % chunks;
         let c = &concs[i];
         let t = ALL_TYPES[(wi * 3 + seed as usize) % 13];
-        let hist = hists[(wi + seed as usize) % hists.len()];
+        // (the two long workloads are always part of the run, on small point types)
+        let hist = if wi == 1 { hists[12] } else if wi == 4 { hists[13] } else { hists[(wi + seed as usize) % 12] };
+        let t = if wi == 1 { 1 } else if wi == 4 { 21 } else { t };
         let syms = if wi % 2 == 0 { model_syms(t, other_type(t, 0)) } else { random_syms(&mut r, t, other_type(t, 0)) };
         let buffered = wi % 3 == 2;
         let w = perform(c, hist, &syms, buffered);
